@@ -22,7 +22,7 @@ OtherValues == { GoStr(<<69, 83, 50, 53, 54>>), GoBytes(<<1>>), [t |-> "arr", xs
                  [t |-> "uint64", neg |-> FALSE, a |-> <<255, 255, 255, 255, 255, 255, 255, 249>>] }     \* 2^64-7
 Absent == [t |-> "absent"]
 HdrAlgs == FitAlgValues \cup OtherValues
-SignerAlgs == {0 - 7, 0 - 36, 0 - 65537, 5}
+SignerAlgs == {0 - 7, 0 - 36, 0 - 65537, 5, 0}       \* 0: the reserved id - what a custom signer / verifier that never set its algorithm reports
 Exts == { [ext |-> <<>>, extnil |-> TRUE, extempty |-> FALSE], [ext |-> <<>>, extnil |-> FALSE, extempty |-> TRUE], [ext |-> <<1, 2>>, extnil |-> FALSE, extempty |-> FALSE] }
 
 Lbl1(t) == [t |-> t, neg |-> FALSE, a |-> <<1>>]
@@ -95,14 +95,20 @@ RawProg(struct, raw, nilmap, alg, x) ==
          << [op |-> struct, obj |-> "", m |-> m, signers |-> <<Signer(alg)>>, buf |-> "b"] @@ x >>
 VARIABLE st
 Init == st = [phase |-> 0]
-PickStruct == st.phase = 0 /\ \E s \in Structs : \E flow \in {"sign", "verify", "decverify"} :
+PickStruct == st.phase = 0 /\ \E s \in Structs : \E flow \in {"sign", "verify", "decverify", "poisoned"} :
                  ~(flow # "sign" /\ s \in {"sign1helper", "sign1untaggedhelper"})
                  /\ st' = [phase |-> 1, struct |-> s, flow |-> flow]
 PickHdr == st.phase = 1 /\ \E hv \in HdrAlgs \cup {Absent} : \E lt \in (IF hv.t = "absent" THEN {"int64"} ELSE LabelSpellings) :
-                 (st.flow = "decverify" => lt = "int64")
+                 (st.flow \in {"decverify", "poisoned"} => lt = "int64")
+                 /\ (st.flow = "poisoned" => hv.t \in {"absent", "alg"})
                  /\ st' = [phase |-> 2, struct |-> st.struct, flow |-> st.flow, P |-> PBucket(lt, hv)]
 PickRest == st.phase = 2 /\ \E alg \in SignerAlgs : \E x \in Exts :
                  st' = [phase |-> 3, struct |-> st.struct, flow |-> st.flow, P |-> st.P, alg |-> alg, x |-> x]
+\* the same wire image was decoded before into another variable whose parsed map the caller then edited to the verifier's
+\* algorithm: the message decoded afterwards must be judged by its own bytes
+PoisonSteps(struct, P, alg) ==
+  << [op |-> "unmarshal", obj |-> "m0", kind |-> struct, buf |-> "w0", bytes |-> ImageOf(struct, Msg(struct, P, Dummy))],
+     [op |-> "setalg", obj |-> "m0", absent |-> FALSE, alg |-> alg] >>
 PickRaw == st.phase = 0 /\ \E s \in {"sign1", "sign1u", "sign1helper", "sign1untaggedhelper"} : \E raw \in RawNoAlg : \E nm \in BOOLEAN : \E alg \in {0 - 7, 5} : \E x \in Exts :
              st' = [phase |-> 3, struct |-> s, flow |-> "sign", P |-> <<>>, alg |-> alg, x |-> x, raw |-> raw, nilmap |-> nm]
 Next == PickStruct \/ PickHdr \/ PickRest \/ PickRaw
@@ -112,6 +118,8 @@ Prog == CASE st.flow = "sign" /\ "raw" \in DOMAIN st -> RawProg(st.struct, st.ra
           [] st.flow = "sign" -> SignProg(st.struct, st.P, st.alg, st.x)
           [] st.flow = "verify" -> VerifyProg(st.struct, st.P, st.alg, st.x)
           [] st.flow = "decverify" -> DecVerifyProg(st.struct, st.P, st.alg, st.x)
+          [] st.flow = "poisoned" -> PoisonSteps(st.struct, st.P, st.alg) \o DecVerifyProg(st.struct, st.P, st.alg, st.x)
 Emit == st.phase # 3 \/
-  PrintT(<<"CASE", ToJson([struct |-> st.struct, flow |-> st.flow, P |-> st.P, alg |-> st.alg, ext |-> st.x.ext, steps |-> Prog])>>)
+  PrintT(<<"CASE", ToJson([struct |-> st.struct, flow |-> (IF st.flow = "poisoned" THEN "decverify" ELSE st.flow), pre |-> (IF st.flow = "poisoned" THEN 2 ELSE 0),
+                           P |-> st.P, alg |-> st.alg, ext |-> st.x.ext, steps |-> Prog])>>)
 =============================================================================
